@@ -640,12 +640,50 @@ def check_map(v: dict, env: List[dict], x: dict, o: dict, m: str) -> List[str]:
 # C05 unions and wrappers: run variants / inner validators separately
 
 
+def map_law(case: dict, env: List[dict], real: dict) -> List[str]:
+    """`result.map(f)`: a Valid payload is transformed (f applied once, to the payload itself), an Invalid comes back
+    untouched and f is not called; on the real result objects"""
+    from koda_validate import Invalid, Valid
+    out: List[str] = []
+    for m in MODES:
+        if "raised" in real[m]["out"]:
+            continue
+        try:
+            ctx = wire.Ctx()
+            rv = build.build(ctx, case["v"], env)
+            rx = wire.mk_value(ctx, real[m].get("xd") or real["xd"])
+            r = rv(rx) if m == "sync" else build.drive(rv.validate_async(rx))
+        except BaseException:  # noqa
+            continue
+        calls: List[Any] = []
+
+        def f(a: Any, calls: List[Any] = calls) -> Any:
+            calls.append(a)
+            return ("mapped", a)
+        try:
+            r2 = r.map(f)
+        except BaseException as e:  # noqa
+            out.append(f"{m}: result.map raised {type(e).__name__}")
+            continue
+        if type(r) is Valid:
+            if type(r2) is not Valid or len(calls) != 1 or calls[0] is not r.val or not (
+                    type(r2.val) is tuple and len(r2.val) == 2 and r2.val[0] == "mapped" and r2.val[1] is r.val):
+                out.append(f"{m}: Valid.map does not return Valid(f(payload)) with f applied once to the payload")
+        elif type(r) is Invalid:
+            if calls or type(r2) is not Invalid or r2.err_type is not r.err_type or r2.value is not r.value \
+                    or r2.validator is not r.validator:
+                out.append(f"{m}: Invalid.map does not leave the Invalid untouched")
+    return out
+
+
 def oracle_C05(case: dict, real: dict, model: dict) -> List[str]:
     out: List[str] = []
     v = case["v"]
     env = case.get("env", [])
     x = real["xd"]
     k = v["k"]
+    if case.get("c05map", True):
+        out += map_law(case, env, real)
     for m in MODES:
         o = real[m]["out"]
         if "raised" in o and k not in ("lazy", "user"):
